@@ -3,6 +3,7 @@ import SynapModel.OptimStore
 import Proofs.OptimStoreRefine
 import Proofs.OptimStoreShape
 import Proofs.OptimStoreRefineAdam
+import Proofs.OptimStepTie
 import Mathlib.Algebra.Field.Basic
 import Mathlib.Tactic.Ring
 import Mathlib.Algebra.BigOperators.Group.Finset.Basic
@@ -865,5 +866,60 @@ example : Synap.OptimStore.liveIds (Synap.OptimStore.sgdRun cexCfg
   decide
 
 end Counterexample
+
+/-! ### The step bodies of the source, as translated on this run (`Synap.Gen.*_step`, file `Generated/OptimSteps.lean`, rewritten
+    from `optimizers.py` by `harness/optim_formulas.py` every time the check runs), are the model's update functions — and hence
+    the published rules.  The Boolean arguments are named after the tests the source makes. -/
+
+theorem src_sgd_step_is_model (c : SGDCfg α) (θ g : α) (buf : Option α) :
+    Synap.Gen.sgd_step (dampening := c.dampening) (lr := c.lr) (momentum := c.momentum) (weight_decay := c.weightDecay)
+      (maximize := c.maximize) (momentum_ne_0 := c.useMom) (nesterov := c.nesterov) (weight_decay_ne_0 := c.useWd) θ g buf
+    = sgdUpdate c θ g buf := Proofs.OptimStepTie.sgd_step_eq c θ g buf
+
+theorem src_adam_step_is_model (c : AdamCfg α) (hd : c.decoupled = false) (θ g : α) (mo : Moments α) :
+    Synap.Gen.adam_step (beta1 := c.beta1) (beta2 := c.beta2) (epsilon := c.eps) (lr := c.lr) (weight_decay := c.weightDecay)
+      (maximize := c.maximize) (weight_decay_ne_0 := c.useWd) θ g mo.m1 mo.m2 mo.t
+    = ((adamUpdate c θ g mo).1, (adamUpdate c θ g mo).2.m1, (adamUpdate c θ g mo).2.m2, (adamUpdate c θ g mo).2.t) :=
+  Proofs.OptimStepTie.adam_step_eq c hd θ g mo
+
+theorem src_adamw_step_is_model (c : AdamCfg α) (hd : c.decoupled = true) (θ g : α) (mo : Moments α) :
+    Synap.Gen.adamw_step (beta1 := c.beta1) (beta2 := c.beta2) (epsilon := c.eps) (lr := c.lr) (weight_decay := c.weightDecay)
+      (maximize := c.maximize) θ g mo.m1 mo.m2 mo.t
+    = ((adamUpdate c θ g mo).1, (adamUpdate c θ g mo).2.m1, (adamUpdate c θ g mo).2.m2, (adamUpdate c θ g mo).2.t) :=
+  Proofs.OptimStepTie.adamw_step_eq c hd θ g mo
+
+/-- **the source's SGD step is the documented step** (momentum in use; the two `!= 0` tests evaluated on the values they test) -/
+theorem src_sgd_step_is_published_rule [DecidableEq α] (lr μ τ wd : α) (nesterov maximize : Bool) (hμ : μ ≠ 0) (θ g : α) (buf : Option α) :
+    Synap.Gen.sgd_step (dampening := τ) (lr := lr) (momentum := μ) (weight_decay := wd) (maximize := maximize)
+      (momentum_ne_0 := decide (μ ≠ 0)) (nesterov := nesterov) (weight_decay_ne_0 := decide (wd ≠ 0)) θ g buf
+    = sgdSpecStep lr μ τ wd nesterov maximize (θ, buf) g := by
+  let c : SGDCfg α := ⟨lr, μ, τ, wd, decide (wd ≠ 0), decide (μ ≠ 0), nesterov, maximize⟩
+  have hc : SGDCfg.Consistent c := ⟨fun h => by simpa [c] using h, fun h => by simpa [c] using h⟩
+  have hm : c.useMom = true := by simp [c, hμ]
+  have h1 := src_sgd_step_is_model c θ g buf
+  have h2 := congrFun (congrFun (sgdUpdate_eq_spec c hc hm) (θ, buf)) g
+  simp only [c] at h1 h2
+  rw [h1]; exact h2
+
+/-- **the source's Adam / AdamW steps are the documented step** (`adamSpecStep`), the `!= 0` test evaluated on the value it tests -/
+theorem src_adam_step_is_published_rule [DecidableEq α] (lr β1 β2 eps wd : α) (maximize : Bool) (θ g : α) (mo : Moments α) :
+    Synap.Gen.adam_step (beta1 := β1) (beta2 := β2) (epsilon := eps) (lr := lr) (weight_decay := wd) (maximize := maximize)
+      (weight_decay_ne_0 := decide (wd ≠ 0)) θ g mo.m1 mo.m2 mo.t
+    = (let r := adamSpecStep ⟨lr, β1, β2, eps, wd, decide (wd ≠ 0), maximize, false⟩ (θ, mo) g; (r.1, r.2.m1, r.2.m2, r.2.t)) := by
+  let c : AdamCfg α := ⟨lr, β1, β2, eps, wd, decide (wd ≠ 0), maximize, false⟩
+  have h1 := src_adam_step_is_model c rfl θ g mo
+  have h2 := congrFun (congrFun (adamUpdate_eq_spec c (fun h => by simpa [c] using h)) (θ, mo)) g
+  simp only [c] at h1 h2
+  rw [h1]; simp only [h2]
+
+theorem src_adamw_step_is_published_rule (lr β1 β2 eps wd : α) (maximize : Bool) (θ g : α) (mo : Moments α) :
+    Synap.Gen.adamw_step (beta1 := β1) (beta2 := β2) (epsilon := eps) (lr := lr) (weight_decay := wd) (maximize := maximize)
+      θ g mo.m1 mo.m2 mo.t
+    = (let r := adamSpecStep ⟨lr, β1, β2, eps, wd, true, maximize, true⟩ (θ, mo) g; (r.1, r.2.m1, r.2.m2, r.2.t)) := by
+  let c : AdamCfg α := ⟨lr, β1, β2, eps, wd, true, maximize, true⟩
+  have h1 := src_adamw_step_is_model c rfl θ g mo
+  have h2 := congrFun (congrFun (adamUpdate_eq_spec c (fun h => by simp [c] at h)) (θ, mo)) g
+  simp only [c] at h1 h2
+  rw [h1]; simp only [h2]
 
 end Props.C08
